@@ -10,6 +10,7 @@ import Dicom.Spec.CmdSetGrammar
 import Dicom.Spec.CommandFields
 import Dicom.Spec.PduGrammar
 import Dicom.Model.Provider
+import Dicom.Model.Negotiation
 /-! Line-protocol driver: one op per input line, one output line per op.
 Imports models and specifications only (never Generated or Props), core Lean only. -/
 open Dicom
@@ -159,6 +160,26 @@ def provTrace : P → List Tick → List String
     s!"st={r.1.st.toNat} sock={r.1.sock} tmr={r.1.timer} crashed={r.1.crashed} out={",".intercalate (r.2.map outText)}"
       :: provTrace r.1 ts
 
+/-! ### C09 / C11 ops -/
+def parseUids (s : String) : Option (List Bytes) :=
+  if s = "" || s = "-" then some [] else (s.splitOn "+").mapM hexToBytes
+
+open Dicom.Neg in
+def parsePcRq (s : String) : Option PcRq :=
+  match s.splitOn ":" with
+  | [id, abs, ts] => match id.toNat?, hexToBytes abs, parseUids ts with
+    | some id, some abs, some ts => some ⟨id, abs, ts⟩
+    | _, _, _ => none
+  | _ => none
+
+open Dicom.Neg in
+def parsePcAc (s : String) : Option PcAc :=
+  match s.splitOn ":" with
+  | [id, res, ts] => match id.toNat?, res.toNat?, hexToBytes ts with
+    | some id, some res, some ts => some ⟨id, res, ts⟩
+    | _, _, _ => none
+  | _ => none
+
 def step (line : String) : String :=
   match line.trimAscii.toString.splitOn " " with
   | ["ping"] => "pong"
@@ -221,6 +242,33 @@ def step (line : String) : String :=
     match (ticks.splitOn ";").mapM parseTick with
     | some ts => " | ".intercalate (provTrace (if role = "acc" then Prov.initAcc else Prov.initReq) ts)
     | none => "bad-op"
+  | "accept" :: scp :: ts :: ctxs =>
+    match parseUids scp, parseUids ts, ctxs.mapM parsePcRq with
+    | some scp, some ts, some cs =>
+      let r := Neg.accept ⟨scp, ts⟩ cs
+      s!"{";".intercalate (r.1.map fun a => s!"{a.id}:{a.result}:{hx a.ts}")} | {";".intercalate (r.2.map fun e => s!"{e.1}:{hx e.2.1}:{hx e.2.2}")}"
+    | _, _, _ => "bad-op"
+  | "add-calls" :: calls =>
+    match calls.mapM parseUids with
+    | some cs => ";".intercalate ((Neg.addCalls cs).map fun e => s!"{e.1}:{hx e.2}")
+    | none => "bad-op"
+  | "process-ac" :: scu :: proposed :: reply =>
+    -- process-ac <scu classes a+b> <proposed id.cls+id.cls> <reply id:res:ts ...>
+    match parseUids scu, (if proposed = "-" then some [] else (proposed.splitOn "+").mapM fun e =>
+            match e.splitOn "." with
+            | [i, c] => match i.toNat?, hexToBytes c with
+              | some i, some c => some (i, c)
+              | _, _ => none
+            | _ => none), reply.mapM parsePcAc with
+    | some scu, some prop, some rep =>
+      match Neg.processAc prop rep {} with
+      | none => "keyerror"
+      | some u =>
+        let classes := (prop.map (·.2)).eraseDups
+        s!"{";".intercalate (u.byId.map fun e => s!"{e.1}:{hx e.2.1}:{hx e.2.2}")} | {";".intercalate (classes.map fun c => match Neg.getScu u scu c with
+          | some (i, t) => s!"{hx c}={i}:{hx t}"
+          | none => s!"{hx c}=none")}"
+    | _, _, _ => "bad-op"
   | ["cf-of", name] =>
     match Spec.commandFieldTable.find? (fun e => e.2 = name) with
     | some e => toString e.1
